@@ -7,7 +7,7 @@ EXPLANATION = ('symx executes the real resolution builder (set_parse_result -> _
                'The "non-existent date -> not resolved" and "definite TIMEX = value" clauses for dates are decided end to end by C06 O6.2, for times by C07 O7.2/O7.4.')
 ASSUMPTIONS = ['the per-type parsers hand the builder future/past dictionaries with the keys of their type (as BaseDateParser.parse etc. do)',
                'min-value sides are considered for date and datetime kinds (a time of day has no min-value rendering)']
-OUTSIDE = ['Specs inputs of cultures other than English; the 58 English inputs whose symbolic exploration does not finish in 60 s', 'set / timezone types, Chinese merged parser', 'holiday date functions']
+OUTSIDE = ['Specs inputs whose symbolic exploration does not finish in 60 s at screening time (listed under "slow" in harness/c11_inputs*.json; 58 for English)', 'set / timezone types, Chinese merged parser', 'holiday date functions']
 B = 'recognizers_date_time.date_time.base_merged:BaseMergedParser.'
 
 
@@ -39,17 +39,39 @@ def obligations(tier):
                        'recognizers_date_time.date_time.utilities:DateUtils.is_valid_time'])]
     import json as _json
     import os as _os
-    pool = _json.load(open(_os.path.join(_os.path.dirname(_os.path.dirname(_os.path.abspath(__file__))), 'harness', 'c11_inputs.json'), encoding='utf-8'))
-    ok = [x['q'] for x in pool['discharged']]
-    quick_q = [x['q'] for x in pool['discharged'] if x['wall'] <= 12][::18]
-    qs = quick_q if tier == 'quick' else ok + pool['duration_not_resolved']
-    obs.append(Ob('O11.4-corpus-wellformed', 'sx', 'harness.apidt:h_wellformed', twin=None, slices=[{'q': q} for q in qs], timeout=90 if tier == 'quick' else 240,
-                  descr='API level, symbolic reference datetime: for each English DateTimeModel Specs input (a pool of realistic queries; expected outputs not consulted) and EVERY reference datetime, '
+    H = _os.path.join(_os.path.dirname(_os.path.dirname(_os.path.abspath(__file__))), 'harness')
+    known = _json.load(open(_os.path.join(H, 'c11_known.json'), encoding='utf-8'))          # culture -> finding id -> inputs whose counterexample is that recorded finding
+    enc = ['recognizers_date_time.date_time.base_merged:BaseMergedParser.parse', 'recognizers_date_time.date_time.base_merged:BaseMergedParser.set_parse_result',
+           'recognizers_date_time.date_time.models:DateTimeModel.parse']
+    slices, region, nq, nt = [], {}, {}, {}
+    for cult, step in (('en-us', 18), ('zh-cn', 12), ('es-es', 12), ('fr-fr', 12), ('pt-br', 12), ('de-de', 12), ('it-it', 12), ('nl-nl', 12)):
+        f = _os.path.join(H, 'c11_inputs.json' if cult == 'en-us' else 'c11_inputs_%s.json' % cult)
+        if not _os.path.exists(f):
+            continue
+        pool = _json.load(open(f, encoding='utf-8'))
+        kn = known.get(cult, {})
+        listed = set(q for qs_ in kn.values() for q in qs_)
+        ok = [x for x in pool['discharged'] if x['q'] not in listed]
+        extra = [q for q in pool.get('recheck', []) if q not in listed]          # inputs of repaired findings and the like: always checked
+        quick_q = [x['q'] for x in ok if x['wall'] <= 12][::step] + extra
+        qs = quick_q if tier == 'quick' else [x['q'] for x in ok] + extra
+        nq[cult], nt[cult] = len(quick_q), len(ok) + len(extra)
+        slices += [{'q': q} if cult == 'en-us' else {'q': q, 'culture': cult} for q in qs]
+        for fid, qs_ in kn.items():
+            region.setdefault(fid, []).extend({'q': q} if cult == 'en-us' else {'q': q, 'culture': cult} for q in qs_)
+    obs.append(Ob('O11.4-corpus-wellformed', 'sx', 'harness.apidt:h_wellformed', twin=None, slices=slices, timeout=90 if tier == 'quick' else 240,
+                  descr='API level, symbolic reference datetime: for each DateTimeModel Specs input of each culture (a pool of realistic queries; expected outputs not consulted) and EVERY reference datetime, '
                         'every value of every returned entity has the shape its type promises: valid calendar dates / times, type name = type of the values, pure date ranges with start before end',
-                  bounds='reference = every minute 1950-01-01..2090-12-31 (symbolic day number, hour, minute); %d inputs (thorough: %d); the 13 inputs of F45 and the input of F46 are excluded by input' % (len(quick_q), len(ok) + len(pool['duration_not_resolved'])),
-                  encodes=['recognizers_date_time.date_time.base_merged:BaseMergedParser.parse', 'recognizers_date_time.date_time.base_merged:BaseMergedParser.set_parse_result',
-                           'recognizers_date_time.date_time.models:DateTimeModel.parse'],
+                  bounds='reference = every minute 1950-01-01..2090-12-31 (symbolic day number, hour, minute); inputs per culture quick %s, thorough %s; the inputs listed in harness/c11_known.json '
+                         'are explored by the O11.4-known-* obligations instead' % (_json.dumps(nq), _json.dumps(nt)),
+                  encodes=enc,
                   stubs=['DateTimeModel.parse mirrored with the same swallow-exceptions behaviour for parser errors; unmodelled calendar operations end the slice as inconclusive']))
+    for fid in sorted(region):
+        obs.append(Ob('O11.4-known-' + fid, 'sx', 'harness.apidt:h_wellformed', twin=None, slices=region[fid], timeout=90 if tier == 'quick' else 240, finding=fid,
+                      descr='the same exploration on the inputs whose counterexample is the recorded finding %s (identified by input): reported as KNOWN-FINDING while open' % fid,
+                      bounds='reference = every minute 1950-01-01..2090-12-31; %d inputs' % len(region[fid]), encodes=enc))
     obs.append(Ob('O11.4-witness-range', 'fn', 'harness.witness:api_witness', slices=[{'w': 'F45'}], timeout=t, finding='F45', descr='API witness of F45 (range with a reference-relative endpoint: start not before end)'))
-    obs.append(Ob('O11.4-witness-time', 'fn', 'harness.witness:api_witness', slices=[{'w': 'F46'}], timeout=t, finding='F46', descr='API witness of F46 (time range end 27:00:00)'))
+    obs.append(Ob('O11.4-witness-time', 'fn', 'harness.witness:api_witness', slices=[{'w': 'F46'}], timeout=t, finding='F46', descr='API witness of the repaired F46 (time range end 27:00:00): a reappearance is a violation'))
+    obs.append(Ob('O11.4-witness-zh-range', 'fn', 'harness.witness:api_witness', slices=[{'w': 'F47'}], timeout=t, finding='F47', descr='API witness of the repaired F47 (Chinese year-less period, start a year after end): a reappearance is a violation'))
+    obs.append(Ob('O11.4-witness-zh-years', 'fn', 'harness.witness:api_witness', slices=[{'w': 'F48'}], timeout=t, finding='F48', descr='API witness of F48 (three years joined into the empty range 2000..2000)'))
     return obs
